@@ -155,6 +155,10 @@ class ModbusSocketFramer(ModbusFramer):
                         _logger.debug("Not a valid unit id - {}, "
                                       "ignoring!!".format(self._header['uid']))
                         self.resetFrame()
+                elif self._header['len'] >= 2:
+                    # complete header of a frame whose body has not fully
+                    # arrived yet: keep what we have and wait for the rest
+                    break
                 else:
                     _logger.debug("Frame check failed, ignoring!!")
                     self.resetFrame()
